@@ -181,7 +181,51 @@ def report_problems(ctx, results):
     return n
 
 
+def silent_peer_problems():
+    """A dead connection must be noticed: an established connection whose peer has gone silent (socket open, no event
+    from the poller, every write accepted) is reported as disconnected once a send happens after the read timeout -
+    the send path is the only place where a connection without socket events can notice it.  Real TcpConnection on the
+    fake socket layer of the C13 harness; this is the part of C14 ("a connection that stopped working is replaced") that
+    lives below the transport."""
+    import importlib
+    import pysyncobj.tcp_connection as T
+    from harness import framing as F
+    problems = []
+    cases = 0
+    for tmo in (5, 10, 100):
+        for quiet_polls in (0, 2):
+            clock = F.Clock()
+            oracle = F.install(T, clock)
+            try:
+                R = F.Conn(T, clock, oracle, 6, tmo)
+                CS = T.CONNECTION_STATE
+                for k in range(quiet_polls):          # write-ready polls while the buffer drains: no data arrives
+                    clock.now += 1
+                    R.poll(False, True, False, False, [('acc', 1000)], [])
+                sent = 0
+                t0 = clock.now
+                while clock.now - t0 <= 3 * tmo + 3 and R.c.state == CS.CONNECTED:
+                    clock.now += max(1, tmo // 3)
+                    R.send({'type': 'append_entries', 'k': sent}, [('acc', 1000)] * 4)
+                    sent += 1
+                cases += 1
+                if R.c.state == CS.CONNECTED:
+                    problems.append('a connection whose peer is silent for %d time units (timeout %d) is still CONNECTED after %d '
+                                    'accepted sends; no disconnect was reported' % (int(clock.now - t0), tmo, sent))
+                elif not any(e[0] == 'disc' for e in R.log):
+                    problems.append('silent connection (timeout %d) left the CONNECTED state without onDisconnected' % tmo)
+                if R.raised:
+                    problems.append('exception escaped the connection: %r' % (R.raised[:1],))
+            finally:
+                F.uninstall(T)
+    return problems, cases
+
+
 def correspondence(ctx):
+    sp, n_sp = silent_peer_problems()
+    ctx.monitor['silent_peer_cases'] = n_sp
+    for p_ in sp[:2]:
+        ctx.violation('C14 monitor on the implementation: ' + p_, {'kind': 'silent_peer', 'problem': p_}, found_input=True)
     n = 1000 if ctx.quick else 8000
     base = ctx.seed * 1000003 % (2 ** 31)
     seeds = sorted(H.SCRIPTS) + corpus_seeds() + [base + i for i in range(n)]
